@@ -212,6 +212,11 @@ func (s IndexStep) Apply(val Value) (Value, error) {
 		return NilVal, errors.New("cannot index a null value")
 	}
 
+	if s.Key.IsNull() {
+		// A null key cannot name any element, and HasIndex would panic on it.
+		return NilVal, errors.New("key value is null")
+	}
+
 	switch s.Key.Type() {
 	case Number:
 		if !(val.Type().IsListType() || val.Type().IsTupleType()) {
